@@ -20,6 +20,7 @@ EXPLANATION = (
     "record lets the first member win; (R15.5) the per-timestamp expansion builds (ts=value of the field, ts_description=its "
     "name) in the field order of the timestamp descriptor and puts it first. NOT decided: resulting field order arithmetic, "
     "merged types, projection results - value level."
+    " Also decided (rules added after the fifth blind round): (R15.6) RecordDescriptor.__eq__ answers True only when name and field tuples are equal - the merge and projection caches are keyed by it."
 )
 RULE_SUMMARY = "instances: (function, parameter) effect pairs, field reads with their reaching definitions, symbolic sequences per flag value, guards"
 
